@@ -105,6 +105,14 @@ fn run_case(c: &Case) -> (Vec<Viol>, String) {
     match r {
         Err(e) => {
             outcome = "err".to_string();
+            // whatever package.toml the destination holds after a refused descriptor (nothing, or the
+            // one of an earlier call) is a normalised one: no libcnb: reference, no relative path
+            if let Ok(text) = std::fs::read_to_string(dst.join("package.toml")) {
+                let left: Vec<String> = toml::from_str::<toml::Table>(&text).ok().and_then(|d| d.get("dependencies").and_then(|d| d.as_array()).map(|a| a.iter().filter_map(|x| x.get("uri").and_then(|u| u.as_str()).map(String::from)).collect())).unwrap_or_default();
+                if let Some(bad) = left.iter().find(|u| u.starts_with("libcnb:") || !(u.contains(':') || u.starts_with('/'))) {
+                    v.push(("unnormalised-descriptor-left-after-error".into(), format!("{c:?}: the call failed ({e}) but the destination holds a package.toml with the dependency {bad:?}"), replay.clone()));
+                }
+            }
             if !missing {
                 v.push(("valid-descriptor-rejected".into(), format!("{c:?}: {e}"), replay));
             }
@@ -202,6 +210,11 @@ fn rel_paths(max_segs: usize) -> Vec<String> {
         out.insert(vec![".."; k].join("/"));
         out.insert(format!("{}/x", vec![".."; k].join("/")));
         out.insert(format!("a/{}/x/", vec![".."; k].join("/")));
+    }
+    // percent-encoded octets in a segment: a path reference is copied segment by segment, an
+    // encoded dot or separator is not a dot or a separator
+    for p in ["bp%2Dtools", "a/java%2B17/x", "%2E%2E/y", "a/%2E/../b%2Fc", "a%20b/c", "%41/../%7Ex"] {
+        out.insert(p.split('/').collect::<Vec<_>>().join("/"));
     }
     for s in seqs {
         let base = s.join("/");
